@@ -50,6 +50,10 @@ func runC17(t *testing.T, r *engine.Run) {
 		return
 	}
 	specs := pickClients(tp, 2, false)
+	tp.Note(fmt.Sprint(wd.existingKeys(), clientNames(specs)))
+	for _, o := range objs {
+		tp.Note(compactSpec(o.Spec))
+	}
 	r.Logf("objects=%v clients=%v", wd.existingKeys(), clientNames(specs))
 	for _, o := range objs {
 		r.Logf("  %s ctime=+%ds %s", cfgKey(o), int(o.CreationTimestamp.Sub(wlT0).Seconds()), compactSpec(o.Spec))
@@ -114,6 +118,7 @@ func runC17(t *testing.T, r *engine.Run) {
 		}
 		for i := range p {
 			p[i] = p[i].DeepCopy()
+			tp.Note(cfgKey(p[i]))
 		}
 		return p
 	}
